@@ -1,13 +1,24 @@
 #!/bin/bash
-# usage: tools/mutant.sh <patch-file> <ID> [tier]   — apply a patch to /repo, run the check, always restore /repo.
+# usage: tools/mutant.sh <patch-file> <ID> [tier]
+# Applies a patch to /repo, starts the check, restores /repo as soon as the check has built its test binary
+# (the binary is what runs afterwards), waits for the verdict. Evidence / replays go to scratch directories.
 set -u
 patch="$(readlink -f "$1")"; id="$2"; tier="${3:-quick}"
 cd /verif
+exec 9>/tmp/verif-mutant.lock; flock 9
 if [ -n "$(git -C /repo status --porcelain -- . ':!third_party')" ]; then echo "/repo not clean"; exit 3; fi
 git -C /repo apply "$patch" || { echo "patch does not apply"; exit 3; }
-VERIF_EVIDENCE_DIR=/tmp/mutant-evidence VERIF_REPLAY_DIR=/tmp/mutant-replays ./check "$id" --tier "$tier" > /tmp/mutant.$$.out 2> /tmp/mutant.$$.err; rc=$?
-git -C /repo checkout -- . 
-grep -E "VIOLATION|KNOWN-FINDING" /tmp/mutant.$$.out; tail -3 /tmp/mutant.$$.err
-rm -f /tmp/mutant.$$.out /tmp/mutant.$$.err
-echo "mutant $(basename $patch) on $id: rc=$rc"
+tag=$$
+VERIF_EVIDENCE_DIR=/tmp/mutant-evidence VERIF_REPLAY_DIR=/tmp/mutant-replays ./check "$id" --tier "$tier" > /tmp/mutant.$tag.out 2> /tmp/mutant.$tag.err &
+pid=$!
+for i in $(seq 1 600); do
+  if grep -q "^\[build\]" /tmp/mutant.$tag.err 2>/dev/null || ! kill -0 $pid 2>/dev/null; then break; fi
+  sleep 0.5
+done
+git -C /repo checkout -- .
+flock -u 9
+wait $pid; rc=$?
+grep -E "VIOLATION|KNOWN-FINDING" /tmp/mutant.$tag.out | head -3; tail -2 /tmp/mutant.$tag.err
+rm -f /tmp/mutant.$tag.out /tmp/mutant.$tag.err
+echo "mutant $(basename $(dirname $patch))/$(basename $patch) on $id ($tier): rc=$rc"
 exit $rc
